@@ -5,6 +5,7 @@ mod builder;
 mod cells;
 mod codec;
 mod conv;
+mod depth;
 mod driver;
 mod evalrun;
 mod gen;
@@ -200,6 +201,7 @@ fn main() {
         }
         "C14" => syntax::run_c14(&mut rep, &o.driver, o.workers, o.tier == "thorough", o.seed),
         "C16" => syntax::run_c16(&mut rep, &o.driver, o.workers, o.tier == "thorough", o.seed),
+        "C19" => depth::run(&mut rep, o.tier == "thorough"),
         "C12" => sched::run(&mut rep, &o.driver, o.workers, o.tier == "thorough", o.seed),
         "C13" => serval::run(&mut rep, &o.driver, o.workers, o.tier == "thorough", o.seed),
         "C15" => builder::run(&mut rep, &o.driver, o.workers, o.tier == "thorough", o.seed),
